@@ -56,7 +56,7 @@ def result_case(draw, only=None):
 
 @st.composite
 def attr_case(draw):
-    D = draw(st.integers(1, 3))
+    D = draw(st.sampled_from([1, 2, 2, 3, 3, 4]))
     N = draw(st.integers(1, 5))
     rows = draw(st.lists(st.lists(st.integers(0, 2), min_size=D, max_size=D), min_size=N, max_size=N))
     if draw(st.integers(0, 3)) == 0:
@@ -81,7 +81,8 @@ def attr_case(draw):
         names = sorted(names, key=gen.var_num)
     fault = draw(st.sampled_from([None] * 6 + ["dup-name", "dup-name", "len-coef", "len-names"]))
     if fault == "dup-name" and D >= 2:
-        names[1] = names[0]
+        i, j = sorted(draw(st.lists(st.integers(0, D - 1), min_size=2, max_size=2, unique=True)))
+        names[j] = names[i]  # adjacent or not
     func = draw(st.sampled_from(["polynomial_from_attributes", "from_attributes", "clean_attributes",
                                  "remove_redundant_coefficients", "remove_redundant_names"]))
     tri = st.sampled_from([None, True, False])
